@@ -7,9 +7,30 @@ def U(name, src, **kw):
     d = dict(name=name, src=src); d.update(kw); return d
 
 CHECKS = {}
+NOT_YET = {}
+NOTES = ("All checks are bounded exhaustive explorations executed against the real nmtools headers of /repo's working tree; "
+         "see DESIGN.md. known_findings.jsonl lists genuine defects of the pinned tree by explicit input key.")
+ENGINES = [
+    dict(name="E1", path="engine/nmc.hpp", serves_properties=["C01","C03","C04","C05","C06","C07","C08","C12","C15","C16","C17","C18"],
+         kind_free_text="input-space explorer: odometer enumeration of a stated finite alphabet, every case executed on the real code and compared with the reference model (engine/nmc_ref.hpp); fork-based crash containment"),
+    dict(name="E2", path="harness/pipeline.hpp", serves_properties=["C02","C10","C11","C13","C14","C15"],
+         kind_free_text="pipeline explorer: breadth-first search over view programs by template recursion; lazy / eager / reference triple at every node"),
+    dict(name="E3", path="engine/nmc_bfs.hpp", serves_properties=["C19","C20"],
+         kind_free_text="explicit-state BFS over operation histories of the real mutable objects with canonical-state merging"),
+    dict(name="E4", path="harness/c13_kernel.cpp", serves_properties=["C13"],
+         kind_free_text="stateless schedule explorer over per-thread kernel bodies with measured independence relation"),
+    dict(name="E5", path="gen/", serves_properties=["C09"],
+         kind_free_text="configuration-matrix differential over container kinds, deviation-bounded"),
+]
+E1_TECH = "bounded exhaustive enumeration of the stated input space (small-scope model checking), each case executed on the real code and compared with an independent reference model"
+E1_NOTE = ("trusted: the reference model engine/nmc_ref.hpp (naive NumPy-definition loops, audited against NumPy 2.4 by audit/), g++ 12, "
+           "the observation layer (nmtools::shape/len/at/apply_at). Bounded: only the stated small scope is covered; nothing above it is sampled.")
 
 CHECKS["C03"] = dict(
-    level="exploration",
+    level="exploration", engine="E1", technique=E1_TECH, level_note=E1_NOTE,
+    level_text="Every member of the stated finite input space (all source shapes up to the bound x the full argument menu of each of the 12 "
+               "rearranging routines) is executed on the real view and on the evaluated array and compared, shape and every element, with the "
+               "NumPy-definition model; the space is an input space, not a reachability graph, hence 'exploration' with exhaustive=true.",
     units=[
         U("rearrange", "harness/c03_rearrange.cpp", weight=3),
         U("rearrange_san", "harness/c03_rearrange.cpp", san=True, family="rearrange", shadow=True, weight=5),
